@@ -6,6 +6,7 @@ still pass, and then `./check <prop>` (and the extra props) is run against the p
 exit 0 -- an alarm here is a false alarm of the machinery (or the refactoring is not benign after all).
 Prints a JSON summary."""
 import json, os, shutil, subprocess, sys, tempfile, xml.etree.ElementTree as ET
+HOME = os.path.dirname(os.path.dirname(os.path.abspath(__file__)))
 
 prop, patch, equiv = sys.argv[1:4]
 props = [prop] + sys.argv[4:]
@@ -39,7 +40,7 @@ try:
     res["checks"] = {}
     for p in props:
         env = dict(os.environ, VERIF_REPO=wt, VERIF_NPROC=os.environ.get("VERIF_NPROC", "8"))
-        r = subprocess.run(f"./check {p}", shell=True, cwd="/verif", env=env, stdout=subprocess.PIPE, stderr=subprocess.STDOUT, text=True)
+        r = subprocess.run(f"./check {p}", shell=True, cwd=HOME, env=env, stdout=subprocess.PIPE, stderr=subprocess.STDOUT, text=True)
         lines = [l for l in r.stdout.splitlines() if l.startswith(("VIOLATION", "["))][-4:]
         item = {"rc": r.returncode, "lines": lines}
         for l in lines:
